@@ -907,7 +907,19 @@ pub fn fam_carveout(r: &mut Rng) -> Vec<Prog> {
             };
             let ty = GTy::Union(vec![a.clone(), other.clone()]);
             let l1pat = l1.src();
-            let first = match g.r.below(4) {
+            let mut aliases: Vec<String> = vec![];
+            let first = match g.r.below(6) {
+                4 => {
+                    // the partial TYPE (through an alias) as a pattern: a run-time partial type check
+                    g.feats.insert("carveout:partial-type-alias-pattern".into());
+                    aliases.push(format!("'pt = (a: {l1pat})"));
+                    "='pt => R1".to_string()
+                }
+                5 => {
+                    g.feats.insert("carveout:partial-type-alias-pattern".into());
+                    aliases.push(format!("'pt = A(a: {l1pat})"));
+                    "=('pt)q => R1".to_string()
+                }
                 0 => format!("=(a: {l1pat}) => R1"),
                 1 => format!("=A(a: {l1pat}) => R1"),
                 2 => format!("=A(a: {l1pat}, b: _) => R1"),
@@ -923,7 +935,7 @@ pub fn fam_carveout(r: &mut Rng) -> Vec<Prog> {
             vec![Prog {
                 family: "carveout",
                 features: g.feats.clone(),
-                aliases: vec![],
+                aliases,
                 guards: vec![],
                 defs: vec![("f".into(), f), ("w".into(), w)],
                 main: t(if wide { "{ARG} w f" } else { "{ARG} f" }),
